@@ -25,7 +25,7 @@ Definition w_nlv (l : list (bytes * bytes)) : bytes :=
   | _ =>
       let single :=
         match l with
-        | [(_, (_ :: _) as v)] => Some (string_bytes false (unescape v))
+        | [(_, (_ :: _) as v)] => Some (string_bytes false v)
         | _ => None
         end in
       match single with
